@@ -112,8 +112,8 @@ def run(ctx):
             if r.tag != "ok" or m is None or m.tag != "ok" or r.fields[0] != m.fields[0] + d:
                 ctx.violation("bytes-vs-model(header+payload)", case, dict(header=m.fields[0].hex() if m and m.tag == "ok" else None),
                               dict(outcome=r.tag, head=r.fields[0][:8].hex() if r.fields else None))
-            elif r.fields[0][:4] != ref_hdr(n, 0x80):
-                ctx.violation("len-canonical", case, ref_hdr(n, 0x80).hex(), r.fields[0][:4].hex())
+            elif r.fields[0][:len(ref_hdr(n, 0x80))] != ref_hdr(n, 0x80):
+                ctx.violation("len-canonical", case, ref_hdr(n, 0x80).hex(), r.fields[0][:len(ref_hdr(n, 0x80))].hex())
 
     # ---------------- uint ----------------
     vals = [0]
